@@ -47,7 +47,7 @@ def isTruncate : Op → Bool
 
 inductive Rec
   | new (f : Nat) | app (f : Nat) (b : Bytes) | ren (f g : Nat) | trunc (f : Nat)
-  | up | disc (f : Nat) | scan | away (f : Nat) | gone (f : Nat)
+  | up | disc (f : Nat) | scan | away (f : Nat) | gone (f : Nat) | reuse (f : Nat) | back (f : Nat)
   | inp (f off : Nat) (pass : Bool) | out (f off seq id : Nat) | ack (f off id : Nat) | com (f off id : Nat)
   | eof (f size : Nat) | idle | stuck | crash | saved (f : Nat) (o : Offsets) | died
   | bad (tok : String)
@@ -77,6 +77,7 @@ def observe1 (o : Obs) : Rec → Obs
   | .app f b => { o with content := setContent o.content f (· ++ b) }
   | .ren _ g => { o with content := setContent o.content g (fun _ => []) }
   | .trunc f => { o with content := setContent o.content f (fun _ => []) }
+  | .reuse f => { o with content := setContent o.content f (fun _ => []) }
   | .ack _ _ id => { o with acked := id :: o.acked }
   | .out _ _ _ id => { o with outLast := id :: o.outLast }
   | .crash => { o with outLast := [], saved := [], hadCrash := true, snaps := [] :: o.snaps }
